@@ -2341,6 +2341,21 @@ impl Archive {
 
                 sector_crcs = Some(crcs);
             } else {
+                // Without a checksum table in front of the data, the last sector ends
+                // where the block ends (`compressed_size` leaves out the checksum table
+                // the builder writes). An offset table that runs past the block while
+                // its first offset leaves no room for the table contradicts itself:
+                // the first offset is damaged, and skipping the checksums here would
+                // return whatever bytes it points at unverified.
+                if sector_offsets[sector_count] as u64 > file_info.compressed_size {
+                    return Err(Error::invalid_format(format!(
+                        "Inconsistent sector offset table: data starts at {first_data_offset}, \
+                         before the end of the sector checksum table, but ends at {} in a \
+                         block of {} bytes",
+                        sector_offsets[sector_count], file_info.compressed_size
+                    )));
+                }
+
                 log::debug!(
                     "File has SECTOR_CRC flag but insufficient space for CRC table (offset_table_size={}, first_data_offset={}, needed={}). This is common in some MPQ implementations.",
                     offset_table_size,
